@@ -584,6 +584,21 @@ func genProduceCase(t *rapid.T) produceCase {
 		}
 	}
 	c.Calls = calls
+	if rapid.IntRange(0, 5).Draw(t, "pageSweep") == 0 {
+		// Fields that the encoder back-patches (sizes, checksums, counts) land on or next to a 64 KiB page boundary of the
+		// request buffer when what precedes them ends just below it: a first value of k pages minus 30..170 bytes, then a
+		// few small messages in the same request.
+		c.Route = rapid.SampledFrom([]string{"writer", "client"}).Draw(t, "sweepRoute")
+		c.Codec = 0
+		k := rapid.IntRange(1, 2).Draw(t, "sweepPages")
+		first := msgSpec{TimeNs: genTime(), Key: bytesSpec{Kind: 0}, Value: bytesSpec{Kind: 2, Len: k*pageSize - rapid.IntRange(30, 170).Draw(t, "sweepBelow"), Seed: rapid.IntRange(0, 255).Draw(t, "sweepSeed")}}
+		call := []msgSpec{first}
+		for i, n := 0, rapid.IntRange(1, 4).Draw(t, "sweepTail"); i < n; i++ {
+			call = append(call, msgSpec{TimeNs: genTime(), Key: bytesSpec{Kind: 2, Len: rapid.IntRange(1, 9).Draw(t, "sweepKeyLen"), Seed: i}, Value: bytesSpec{Kind: 2, Len: rapid.IntRange(1, 40).Draw(t, "sweepValLen"), Seed: i + 7}})
+		}
+		c.Calls = [][]msgSpec{call}
+		maxMsg = first.Value.Len + 200
+	}
 	switch c.Route {
 	case "writer":
 		c.BatchSize = rapid.SampledFrom([]int{1, 2, 3, 7, 100}).Draw(t, "batchSize")
